@@ -211,6 +211,23 @@ func Carriers() []Carrier {
 						return d, func(t M) M { return t["paths"].(M)[twin].(M)["get"].(M)["responses"].(M)["200"].(M)["schema"].(M) }
 					})
 				}
+				// two operations whose responses ALREADY carry the same rejected example (one warning text, reported once): a further
+				// example in the second one is reported as well, whatever else was reported before it in the same merge
+				if what == "example" {
+					for _, twin := range []string{"/o1", "/zz"} {
+						twin := twin
+						add("second-operation-crowded", twin, what, false, cs.schema, val, acc, func(js M) (M, func(M) M) {
+							d := baseCarrierDoc()
+							noisy := func() M { return M{"type": "object", "properties": M{"name": M{"type": "string", "example": 5}}} }
+							d["paths"].(M)["/p"].(M)["post"].(M)["responses"].(M)["200"].(M)["schema"] = M{"allOf": []interface{}{noisy()}}
+							d["paths"].(M)[twin] = M{"get": M{"operationId": "op2", "responses": M{"200": M{"description": "ok",
+								"schema": M{"allOf": []interface{}{noisy(), M{"type": "object", "properties": M{"other": js}}}}}}}}
+							return d, func(t M) M {
+								return t["paths"].(M)[twin].(M)["get"].(M)["responses"].(M)["200"].(M)["schema"].(M)["allOf"].([]interface{})[1].(M)["properties"].(M)["other"].(M)
+							}
+						})
+					}
+				}
 				add("response-schema-property", "default", what, false, cs.schema, val, acc, func(js M) (M, func(M) M) {
 					d := baseCarrierDoc()
 					d["paths"].(M)["/p"].(M)["post"].(M)["responses"].(M)["default"] = M{"description": "d", "schema": M{"type": "object", "properties": M{"x": js}}}
